@@ -50,6 +50,17 @@ class Reg:
         self.payload = payload
 
 
+class RegByName:
+    """printer registered lazily by qualified name; repr() is the first entry point that ever sees an instance"""
+
+    def __init__(self, payload):
+        self.payload = payload
+
+
+class RegSub(RegByName):
+    pass
+
+
 def values():
     import prettyprinter
     return [
@@ -78,6 +89,25 @@ def run_history(arg):
     def pretty_reg(r, ctx):
         return pp.pretty_call(ctx, Reg, r.payload)
     Reg.__repr__ = pp.pretty_repr
+
+    @pp.register_pretty(__name__ + '.RegByName')
+    def pretty_regbyname(r, ctx):
+        return pp.pretty_call(ctx, type(r), r.payload)
+    RegByName.__repr__ = pp.pretty_repr
+    # pretty_repr BEFORE any other entry point has resolved the deferred printer (fresh fork: nothing printed yet)
+    M.take_warnings()
+    first = RegSub({'k': [1, 2]}) if len(history) % 2 else RegByName({'k': [1, 2]})
+    try:
+        r0 = repr(first)
+        w0 = M.take_warnings()
+        want0 = pp.pformat(first)
+        obs['entry point calls compared'] += 1
+        if r0 != want0 or w0:
+            viol.append(('entry-point-differs:pretty_repr-first-use-of-deferred-type', 'repr() as the first entry point for a type registered by name gives %r (warnings %r), pformat gives %r' % (r0[:200], [w[1][:80] for w in w0], want0[:200]), {'history': history}))
+        else:
+            obs['agree: pretty_repr as first entry point of a deferred type'] += 1
+    except Exception as e:
+        viol.append(('entry-point-raised', 'pretty_repr on a deferred type: %r' % (e,), {'history': history}))
 
     s = io.StringIO()
     pp.cpprint([1, 'a', None], stream=s)
@@ -265,7 +295,7 @@ def run_shard(sh):
 
 def finalize(m):
     need = ['get_default_config states verified', 'sensitivity anchors verified', 'agree: pformat', 'agree: pformat-positional', 'agree: pprint', 'agree: pprint-positional',
-            'agree: pprint-stdout', 'agree: cpprint(color off)', 'agree: PrettyPrinter.pformat', 'agree: PrettyPrinter.pprint', 'agree: pretty_repr']
+            'agree: pprint-stdout', 'agree: cpprint(color off)', 'agree: PrettyPrinter.pformat', 'agree: PrettyPrinter.pprint', 'agree: pretty_repr', 'agree: pretty_repr as first entry point of a deferred type']
     for name in need:
         if not m.counters.get(name):
             m.inconclusive.append('monitor never reached: ' + name)
